@@ -138,6 +138,10 @@ def run_case(ctx, case):
                   {"got": [getattr(tree, "coordinates", None), getattr(tree, "coordinate_system", None), getattr(tree, "distance_metric", None)],
                    "want": [kind, system, lmetric], "history": hist[: step + 1], "mesh": case["mesh"]})
         P, LL = elements(m, g, twin, kind)
+        if system == "spherical":
+            # trees on spherical coordinates hold the positions the grid reports as lon/lat: inside the pole-snapping band
+            # (|z| > 1 - 1e-8) those are the pole itself (C04 decides that they are the right points otherwise)
+            P = ref.lonlat_to_xyz(LL[:, 0], LL[:, 1])
         ne = len(P)
         scale_deg = 180.0 / math.pi
         for qi in range(8):
